@@ -441,6 +441,12 @@ constexpr MagRepresentationOrError<Widen<T>> base_power_value(B base) {
         };
     }
 
+    // The base itself might not fit in the (signed) widened type.
+    if (std::is_integral<Widen<T>>::value &&
+        base > static_cast<B>(std::numeric_limits<Widen<T>>::max())) {
+        return {MagRepresentationOutcome::ERR_CANNOT_FIT};
+    }
+
     const auto power_result =
         checked_int_pow(static_cast<Widen<T>>(base), static_cast<std::uintmax_t>(N));
     if (power_result.outcome != MagRepresentationOutcome::OK) {
